@@ -54,9 +54,16 @@ def match_known(known, prop, rec):
     for k in known:
         if k.get("status", "open") != "open" or k["property"] != prop:
             continue
-        if k["contract"] != rec["contract"]:
+        if "contracts" in k:
+            if rec["contract"] not in k["contracts"]:
+                continue
+        elif k["contract"] != rec["contract"]:
             continue
         if k.get("obligation") and k["obligation"] != rec["name"]:
+            continue
+        if k.get("obligations") and rec["name"] not in k["obligations"]:
+            continue
+        if k.get("cases") and rec["case"] not in k["cases"]:
             continue
         if k.get("case") is not None and k["case"] != rec["case"]:
             continue
